@@ -1,6 +1,7 @@
 import Gimli.Drv.Util
 import Gimli.Model.ConvCfi
 import Gimli.Model.ConvLine
+import Gimli.Model.ConvOp
 /-!
 C12 requests.
 
@@ -74,12 +75,83 @@ def cfiArith (caf : Nat) (daf : Int) (delta : Nat) (f : Int) : String :=
   | .err e => s!"ok conv:{errName e}"
   | _ => "panic"
 
+/-! ## `c12-expr`: `Expression::from` (`Model/ConvOp.lean`) followed by the expression writer
+(`Model/WOp.lean`), in the unit the harness builds (see `harness/src/prop/c12/expr.rs`) -/
+
+/-- one DIE of the harness unit: kind (`b` early target, `x` the carrier, `l` late target), input
+unit offset, output unit offset observed for an empty expression -/
+structure ExEntry where
+  kind : Char
+  inOff : Nat
+  outOff : Nat
+
+def parseExMap (s : String) : Option (List ExEntry) :=
+  (s.splitOn ",").mapM fun t =>
+    match t.toList with
+    | k :: rest =>
+      match (String.ofList rest).splitOn ":" with
+      | [i, o] => do
+        if k ≠ 'b' ∧ k ≠ 'x' ∧ k ≠ 'l' then none
+        pure { kind := k, inOff := ← i.toNat?, outOff := ← o.toNat? }
+      | _ => none
+    | [] => none
+
+/-- input unit offset of an entry given the length of the expression: the late DIE follows the
+carrier, whose size grows by the ULEB128 length prefix and the expression -/
+def ExEntry.inAt (d : ExEntry) (len : Nat) : Nat :=
+  if d.kind == 'l' then d.inOff - 1 + (Leb.sizeU len + len) else d.inOff
+
+def exIndex (m : List ExEntry) (len : Nat) (o : Nat) : Option Nat := m.findIdx? (fun d => d.inAt len == o)
+
+def exEnv (e : Endian) (asz : Nat) (m : List ExEntry) (len : Nat) (tab : Bytes) : ConvOp.Env where
+  unitRef o := match exIndex m len o with | some i => .ok i | none => .error .invalidUnitRef
+  infoRef o := match exIndex m len o with | some i => .ok (.entry 0 i) | none => .error .invalidDebugInfoRef
+  convAddr a := if a = 0xdead then none else some (.constant a)
+  addrIndex := some fun i =>
+    if i * asz ≥ 2 ^ 64 then .error (.read .rUnsupportedOffset)
+    else match Ints.readAddress e asz (tab.drop (i * asz)) with
+      | .ok (v, _) => .ok v
+      | .err x => .error (.read x)
+      | _ => .error (.read .other)
+
+def exprConv (e : Endian) (enc : Op.Encoding) (bs : Bytes) (m : List ExEntry) (tab : Bytes) : String :=
+  match ConvOp.convert (exEnv e enc.addressSize m bs.length tab) e enc bs with
+  | .error (.read x) => s!"ok failed:R.{x.name}"
+  | .error c => s!"ok failed:{c.name}"
+  | .ok ws =>
+    -- `calculate_offsets`: the late DIE has no offset yet
+    let offsSize : Nat → Option Nat := fun i =>
+      match m[i]? with
+      | some d => if d.kind == 'l' then none else some d.outOff
+      | none => none
+    let out : Out Bytes := do
+      let size ← WOp.exprSize enc (some offsSize) ws
+      let offs : Nat → Option Nat := fun i =>
+        match m[i]? with
+        | some d => if d.kind == 'l' then some (d.outOff - 1 + (Leb.sizeU size + size)) else some d.outOff
+        | none => none
+      let (bytes, fx) ← WOp.exprWrite e enc (some offs) true 0 ws
+      WOp.applyFixups e (fun _ i => offs i) 0 bytes fx
+    match out with
+    | .ok b => s!"ok {toHex b}"
+    | .err x => s!"ok failed:{x.name}"
+    | .panic w => s!"panic {w}"
+    | .diverge => "diverge"
+
 def handle (op : String) (args : List String) : Option String :=
   if op == "c12-dwarf" || op == "c12-frame" then some "ok *"
   else match op, args with
     | "c12-lineaddr", [is] => lineAddr is
     | "c12-cfiarith", [caf, daf, delta, f] => do
         some (cfiArith (← caf.toNat?) (← daf.toInt?) (← delta.toNat?) (← f.toInt?))
+    | "c12-expr", [e, asz, fmt, ver, x, map, addr] => do
+        let e ← endian? e
+        let asz ← asz.toNat?
+        if asz ≠ 4 ∧ asz ≠ 8 then none
+        let ver ← ver.toNat?
+        if ver < 2 ∨ ver > 5 then none
+        some (exprConv e { addressSize := asz, format := ← format? fmt, version := ver } (← parseHex x)
+          (← parseExMap map) (← parseHex addr))
     | _, _ => none
 
 end Gimli.Drv.C12
